@@ -317,6 +317,27 @@ def judge(res, cs, cr):
                     exp = ("!Cannot find entity: '" + mref.entity + "'!") if term is None else rm.empty_check(term.get_form(mref.form) or term.str())
                     if rtxt != exp:
                         viol('insert-resolution', f"inserted {op['ref']!r} resolved to {rtxt!r} expected {exp!r}")
+                elif mref is not None and mref.kind == 'collab' and len(after) == len(before) + 1:
+                    # a collaboration reference resolves against the |offset|-th entity reference before / after it
+                    idx = next((i for i, r in enumerate(after) if r['pos'] == new['pos'] and r['type'] == 'collab'), None)
+                    if idx is not None:
+                        if mref.nominal == '':
+                            exp = '!Empty reference!'
+                        else:
+                            master = None
+                            if mref.offset != 0:
+                                cnt, step, j = abs(mref.offset), (1 if mref.offset > 0 else -1), idx + (1 if mref.offset > 0 else -1)
+                                while 0 <= j < len(after):
+                                    if after[j]['type'] == 'entity':
+                                        cnt -= 1
+                                        if cnt == 0:
+                                            master = after[j]
+                                            break
+                                    j += step
+                            exp = ("!Invalid offset for " + mref.nominal + ": '" + str(mref.offset) + "'!") if master is None else rm.empty_check(mref.nominal + '~' + unbytes(master['resolved']))
+                        res.cover('insert:collaboration' + (':forward' if mref.offset > 0 else ''))
+                        if rtxt != exp:
+                            viol('insert-resolution', f"inserted {op['ref']!r} resolved to {rtxt!r} expected {exp!r} (references after the insertion: {[(r['type'], unbytes(r['resolved'])) for r in after]})")
             mgr_refs = after
             res.count('judged', 2)
         elif k == 'erase':
